@@ -1,0 +1,158 @@
+//go:build verif
+
+package raft
+
+import (
+	"io"
+	"sort"
+	"time"
+)
+
+// ---- node access for the lock-step co-simulation (C01-C11, C14-C18) ----
+
+// VerifFollower is one entry of the leader's follower table.
+type VerifFollower struct {
+	ID           string
+	NextIndex    uint64
+	MatchIndex   uint64
+	SnapshotOpen bool
+	SnapshotPos  int64
+}
+
+// VerifReadOnly is one pending read-only operation.
+type VerifReadOnly struct {
+	Type      OperationType
+	Bytes     []byte
+	ReadIndex uint64
+	Verified  bool
+}
+
+// VerifNodeDump is every protocol-relevant field of a node, read under r.mu.
+type VerifNodeDump struct {
+	ID                 string
+	State              State
+	Term               uint64
+	VotedFor           string
+	CommitIndex        uint64
+	LastApplied        uint64
+	LastIncludedIndex  uint64
+	LastIncludedTerm   uint64
+	LeaderID           string
+	HasConfiguration   bool
+	Configuration      Configuration
+	HasCommitted       bool
+	Committed          Configuration
+	Followers          []VerifFollower
+	PendingReplicated  []uint64
+	PendingReadOnly    []VerifReadOnly
+	ShouldVerifyQuorum bool
+	LeaseValid         bool
+	RecentContact      bool
+	PartialOpen        bool
+	PartialMeta        SnapshotMetadata
+	PartialPos         int64
+	ConfigurationChSet bool
+}
+
+// VerifDump returns the dump. It blocks while another goroutine holds r.mu.
+func VerifDump(r *Raft) VerifNodeDump {
+	r.mu.Lock()
+	defer r.mu.Unlock()
+	d := VerifNodeDump{
+		ID: r.id, State: r.state, Term: r.currentTerm, VotedFor: r.votedFor, CommitIndex: r.commitIndex,
+		LastApplied: r.lastApplied, LastIncludedIndex: r.lastIncludedIndex, LastIncludedTerm: r.lastIncludedTerm,
+		LeaderID: r.leaderID, ShouldVerifyQuorum: r.operationManager.shouldVerifyQuorum,
+		LeaseValid:         r.operationManager.leaderLease.isValid(),
+		RecentContact:      time.Since(r.lastContact) < r.options.electionTimeout,
+		ConfigurationChSet: r.configurationResponseCh != nil,
+	}
+	if r.configuration != nil {
+		d.HasConfiguration = true
+		d.Configuration = r.configuration.Clone()
+	}
+	if r.committedConfiguration != nil {
+		d.HasCommitted = true
+		d.Committed = r.committedConfiguration.Clone()
+	}
+	for id, f := range r.followers {
+		vf := VerifFollower{ID: id, NextIndex: f.nextIndex, MatchIndex: f.matchIndex}
+		if f.snapshot != nil {
+			vf.SnapshotOpen = true
+			vf.SnapshotPos, _ = f.snapshot.Seek(0, io.SeekCurrent)
+		}
+		d.Followers = append(d.Followers, vf)
+	}
+	sort.Slice(d.Followers, func(i, j int) bool { return d.Followers[i].ID < d.Followers[j].ID })
+	for index := range r.operationManager.pendingReplicated {
+		d.PendingReplicated = append(d.PendingReplicated, index)
+	}
+	sort.Slice(d.PendingReplicated, func(i, j int) bool { return d.PendingReplicated[i] < d.PendingReplicated[j] })
+	for op := range r.operationManager.pendingReadOnly {
+		d.PendingReadOnly = append(d.PendingReadOnly, VerifReadOnly{op.OperationType, op.Bytes, op.readIndex, op.quorumVerified})
+	}
+	if r.snapshot != nil {
+		d.PartialOpen = true
+		d.PartialMeta = r.snapshot.Metadata()
+		d.PartialPos, _ = r.snapshot.Seek(0, io.SeekCurrent)
+	}
+	return d
+}
+
+// VerifShiftClock makes d of virtual time pass for this node: every stored
+// timestamp moves d into the past.
+func VerifShiftClock(r *Raft, d time.Duration) {
+	r.mu.Lock()
+	defer r.mu.Unlock()
+	r.lastContact = r.lastContact.Add(-d)
+	l := r.operationManager.leaderLease
+	l.expiration = l.expiration.Add(-d)
+}
+
+// VerifElectionTick is what electionTicker does when its sleep ends.
+func VerifElectionTick(r *Raft) {
+	r.electionCond.Broadcast()
+}
+
+// VerifSnapshotTick wakes snapshotLoop (as applyLoop's snapshotCond.Signal does).
+func VerifSnapshotTick(r *Raft) {
+	r.snapshotCond.Broadcast()
+}
+
+// VerifHeartbeat is one iteration of heartbeatLoop after its sleep.
+func VerifHeartbeat(r *Raft) {
+	r.mu.Lock()
+	defer r.mu.Unlock()
+	if r.state == Shutdown || r.state == Follower {
+		return
+	}
+	r.sendAppendEntriesToPeers()
+}
+
+// VerifPoll is a non-blocking Await: it returns the future's result if one has been delivered.
+func VerifPollOperation(f Future[OperationResponse]) (Result[OperationResponse], bool) {
+	ft := f.(*future[OperationResponse])
+	if ft.response != nil {
+		return ft.response, true
+	}
+	select {
+	case response := <-ft.responseCh:
+		ft.response = response
+		return response, true
+	default:
+		return nil, false
+	}
+}
+
+func VerifPollConfiguration(f Future[Configuration]) (Result[Configuration], bool) {
+	ft := f.(*future[Configuration])
+	if ft.response != nil {
+		return ft.response, true
+	}
+	select {
+	case response := <-ft.responseCh:
+		ft.response = response
+		return response, true
+	default:
+		return nil, false
+	}
+}
